@@ -99,12 +99,29 @@ pub fn run_property(prop: &str, tier: &str, threads: usize, budget: &Budget, fin
     let inline = profiles::inline_only();
     let index = profiles::index();
     report.bounds.push(format!("texts <= {} bytes before a growing operation; chars a/é/€/😀; inline limit {}", LMAX, INLINE));
+    if std::env::var("LSVERIF_SHIM").is_ok_and(|m| m == "pageguard") {
+        // page-guard pass: every heap block ends at an inaccessible page and becomes inaccessible
+        // when released, so an out-of-bounds or dangling READ (invisible to the shadow heap's
+        // audits) kills the process; the driver then pins the death on a case
+        let d: usize = std::env::var("LSVERIF_DEPTH").ok().and_then(|s| s.parse().ok()).unwrap_or(3);
+        report.rule = format!("page-guard pass: wide profile to depth {d}, every operation on every seed state, share profile to depth {d} - with the oracles of {prop}; every heap block of the crate is a mapping of its own ending at a PROT_NONE page, released blocks are PROT_NONE as a whole");
+        bfs(&env, report, &wide, Roots::Empty, d, props, true);
+        bfs(&env, report, &wide, Roots::Seeds, 1, props, true);
+        bfs(&env, report, &share, Roots::Seeds, d, props, true);
+        return;
+    }
     if std::env::var("LSVERIF_MIRI").is_ok() && prop != "C20" {
         // Miri-hosted run of any property: the wide graph to the given depth with that
         // property's oracles (the interpreter is ~10^4 times slower than native code)
         let d: usize = std::env::var("LSVERIF_DEPTH").ok().and_then(|s| s.parse().ok()).unwrap_or(2);
         report.rule = format!("Miri-hosted: wide profile to depth {d} with the oracles of {prop}; Miri additionally stops at any undefined behaviour (out-of-bounds or dangling access, aliasing violation, uninitialised read) in the crate");
         report.bounds.push(format!("target: {} bit, {} endian (executed by Miri)", usize::BITS, if cfg!(target_endian = "big") { "big" } else { "little" }));
+        if std::env::var("LSVERIF_HOSTED_PLAN").is_ok_and(|p| p == "seeds") {
+            // every operation of the alphabet applied to every seed state (the seed prefixes
+            // are validated step by step first): d levels from ~25 varied roots
+            bfs(&env, report, &wide, Roots::Seeds, d, props, true);
+            return;
+        }
         bfs(&env, report, &wide, Roots::Empty, d, props, true);
         if env.part.is_none_or(|(k, _)| k == 0) {
             bfs(&env, report, &wide, Roots::Seeds, 0, props, true);
